@@ -62,6 +62,25 @@ pub mod csvx {
     #[verifier::external_body]
     pub fn drop_last<'a>(s: &'a str) -> (r: &'a str) requires s@.len() > 0 && s@.last() == '!' ensures r@ == s@.drop_last() { unimplemented!() }
 
+    /// H: `format!("{}{}", text, if force { "!" } else { "" })`
+    #[verifier::external_body]
+    pub fn with_mark(t: String, force: bool) -> (r: String) ensures r@ == (if force { t@.push('!') } else { t@ }) { unimplemented!() }
+    // ---- Display texts (the `impl Display` blocks are outside the verified dialect, R6): functions of the value
+    pub uninterp spec fn spec_action_text(a: crate::portfolio::TxAction) -> Seq<char>;
+    pub uninterp spec fn spec_currency_text(code: Seq<char>) -> Seq<char>;
+    pub uninterp spec fn spec_split_text(r: crate::portfolio::SplitRatio) -> Seq<char>;
+    impl crate::portfolio::TxAction {
+        #[verifier::external_body]
+        pub fn to_string(&self) -> (r: String) ensures r@ == spec_action_text(*self) { unimplemented!() }
+    }
+    impl crate::portfolio::Currency {
+        #[verifier::external_body]
+        pub fn to_string(&self) -> (r: String) ensures r@ == spec_currency_text(self.spec_code()) { unimplemented!() }
+    }
+    impl crate::portfolio::SplitRatio {
+        #[verifier::external_body]
+        pub fn to_string(&self) -> (r: String) ensures r@ == spec_split_text(*self) { unimplemented!() }
+    }
     // ---- the table of column names: HashSet<&'static str> looked up by &str
     pub uninterp spec fn is_col(s: Seq<char>) -> bool;
     #[verifier::external_body]
